@@ -262,6 +262,8 @@ class Formatter(FormatterInterface):
             "acosh": "arccosh",
             "asinh": "arcsinh",
             "atanh": "arctanh",
+            "min_value": "minimum",
+            "max_value": "maximum",
         }
         function = function_map.get(f.function, f.function)
         args = [self(arg) for arg in f.args]
